@@ -280,7 +280,7 @@ pub fn provide_liquidity(
         helpers::assert_slippage_tolerance(
             &liquidity_max_slippage,
             &deposits,
-            &mut pool_assets,
+            &pool_assets,
             pool.pool_type.clone(),
         )?;
 
